@@ -5,6 +5,14 @@
 // from a run-time chosen view program.  Operands are rebuilt from raw (pointer, shape, dim) triples in the CUDA/HIP way
 // (device_array objects) or in the SYCL/OpenCL way (create_array views).
 #include "verif/program.hpp"
+#include "nmtools/array/view/ufuncs/negative.hpp"
+#include "nmtools/array/view/ufuncs/square.hpp"
+#include "nmtools/array/view/ufuncs/add.hpp"
+#include "nmtools/array/view/ufuncs/subtract.hpp"
+#include "nmtools/array/functional/ufuncs/negative.hpp"
+#include "nmtools/array/functional/ufuncs/square.hpp"
+#include "nmtools/array/functional/ufuncs/add.hpp"
+#include "nmtools/array/functional/ufuncs/subtract.hpp"
 #include "nmtools/array/functional.hpp"
 #include "nmtools/array/eval/kernel_helper.hpp"
 #include "nmtools/utility/tuple_cat.hpp"
@@ -92,7 +100,28 @@ template <class V> static vj::value kernel_sim(const vj::value& c, const V& v) {
     }
 }
 
+// "chain3" cases: f3(f2(f1(a))) over {negative, square, add b, subtract b} (depth-3 view types without the depth-3 program binaries)
+template <int Level, class V> static vj::value chain3(const vj::value& c, const std::vector<std::string>& ops, const V& v, const dyn_t<long>& b) {
+    if constexpr (meta::is_maybe_v<V>) { if (!static_cast<bool>(v)) { auto n = nothing_res(); n.set("maybe", true); return n; } return chain3<Level>(c, ops, *v, b); }
+    else if constexpr (Level == 3) return kernel_sim(c, v);
+    else {
+        const std::string& o = ops[Level];
+        if (o == "negative") return chain3<Level + 1>(c, ops, nmtools::view::negative(v), b);
+        if (o == "square") return chain3<Level + 1>(c, ops, nmtools::view::square(v), b);
+        if (o == "add") return chain3<Level + 1>(c, ops, nmtools::view::add(v, b), b);
+        return chain3<Level + 1>(c, ops, nmtools::view::subtract(v, b), b);
+    }
+}
+
 static vj::value handle(const vj::value& c) {
+#if !defined(FIRST_IDX) || FIRST_IDX == 0
+    if (c.has("chain3")) {
+        auto a = make_leaf<long>(c["shapes"][0].as_vec<long>(), 0);
+        auto b = make_data<long>(c["chain3"]["bshape"].as_vec<long>(), c["chain3"]["bdata"].as_vec<long>());
+        std::vector<std::string> ops; for (size_t i = 0; i < 3; i++) ops.push_back(c["prog"][i]["op"].as_str());
+        return chain3<0>(c, ops, a, b);
+    }
+#endif
     std::vector<step_t> st;
     for (size_t i = 0; i < c["prog"].size(); i++) st.push_back(parse_step(c["prog"][i], (long)i + 1));
     auto a = make_leaf<long>(c["shapes"][0].as_vec<long>(), 0);
